@@ -31,19 +31,12 @@ THEOREMS = [
     "Py.repr_roundtrip",
     "Py.repr_injective",
     "Py.naive_plain",
-    "Py.naive_counterexample",
-    "Py.naive_counterexample_wrong",
     "C08.parse_pp",
     "C08.render_wf",
-    "C08.syntax_partial",
-    "C08.syntax_noncomment",
-    "C08.syntax_counterexample",
-    "C08.syntax_counterexample_wrong_name",
+    "C08.syntax_full",
+    "C08.syntax_denotes",
 ]
 PARTIAL = {
-    "C08.syntax_partial": "the full statement C08.syntax_statement is false on the unchanged tree (F8: the table-comment renderers embed "
-    "table name and schema with '%s' instead of %r; C08.syntax_counterexample); proved for operations whose non-batch table-comment names are "
-    "plain (no quote, backslash, line break, NUL); C08.syntax_noncomment is the full-strength statement for every other operation",
     "C08.roundtrip (not proved)": "the evaluation half (evalCall (render c o) = normalize o) is not modelled; that the executed code builds the same "
     "operation / emits the same DDL is established only by the exec-vs-invoke oracle on the real code, on every run",
 }
@@ -102,16 +95,6 @@ def _jd(x):
     return json.dumps(x, sort_keys=True, default=str)
 
 
-def rule_f8(spec, ospecs, res):
-    # table-comment renderers: '{tname}' / "'%s'" % schema
-    for o in ospecs:
-        if o["kind"] in ("create_table_comment", "drop_table_comment") and not spec["opts"].get("render_as_batch"):
-            t = spec["tables"][o["table"]]
-            if not _plain_name(t["name"]) or (t.get("schema") is not None and not _plain_name(t["schema"])):
-                return lambda s: "<F8>"
-    return None
-
-
 def rule_mysql_func_index(spec, ospecs, res):
     if res["dialect"] != "mysql":
         return None
@@ -158,14 +141,6 @@ def rule_quote_strip(spec, ospecs, res):
     walk(blob)
     if found:
         return lambda s: re.sub(r"'+", "'", s)
-    return None
-
-
-def rule_fk_deferrable_false(spec, ospecs, res):
-    for o in ospecs:
-        if o["kind"] == "create_table":
-            if any(fk.get("deferrable") is False for fk in spec["tables"][o["table"]].get("fks", [])):
-                return lambda s: s.replace("NOT DEFERRABLE ", "").replace(" NOT DEFERRABLE", "")
     return None
 
 
@@ -278,10 +253,8 @@ def rule_sqlite_parens(spec, ospecs, res):
 
 # finding id -> rule; order = order of application
 RULES = [
-    ("C08-F8-table-comment-naive-quote", rule_f8),
     # structure-aware normalisers first, character-level ones last
     ("C08-N11-type-bound-check-duplicated-by-invoke", rule_dup_check),
-    ("C08-N4-inline-fk-deferrable-false-dropped", rule_fk_deferrable_false),
     ("C08-N5-mssql-default-constraint-not-dropped", rule_mssql_default_drop),
     ("C08-N7-pg-drop-table-enum-type", rule_pg_drop_enum),
     ("C08-N6-add-column-primary-key-not-rendered", rule_pk_add_column),
@@ -306,15 +279,9 @@ def explain(spec, ospecs, res):
     kind = res["kind"]
     app = [(fid, fn(spec, ospecs, res)) for fid, fn in RULES]
     app = [(fid, n) for fid, n in app if n is not None]
-    if kind in ("syntax", "exec-error", "model-spec"):
-        for fid, n in app:
-            if fid.startswith("C08-F8"):
-                return fid
-        return None
     if kind != "sql-mismatch":
+        # no open finding explains a SyntaxError / exec error / Spec.Render.textDenotes failure
         return None
-    if any(fid.startswith("C08-F8") for fid, _ in app):
-        return "C08-F8-table-comment-naive-quote"
     bq = res["dialect"] == "mssql"
     a = rx.normalise_sql(res["sql_exec"], True, bq)
     b = rx.normalise_sql(res["sql_invoke"], True, bq)
